@@ -5,13 +5,44 @@ from .common import sh, log, InfraError
 RUN_TIMEOUT = 20        # seconds; corpus programs finish in milliseconds
 
 
+OUT_CAP = 4 << 20      # a runaway program must not fill memory: stop reading after 4 MiB and kill it
+
+
 def _run(cmd, cwd, env, timeout):
-    try:
-        p = subprocess.run(cmd, cwd=cwd, env=env, timeout=timeout, stdout=subprocess.PIPE, stderr=subprocess.PIPE)
-        rc = p.returncode
-        return dict(rc=rc if rc >= 0 else None, sig=-rc if rc < 0 else None, out=p.stdout, err=p.stderr, timeout=False)
-    except subprocess.TimeoutExpired as e:
-        return dict(rc=None, sig=None, out=e.stdout or b"", err=e.stderr or b"", timeout=True)
+    import threading, time
+    p = subprocess.Popen(cmd, cwd=cwd, env=env, stdout=subprocess.PIPE, stderr=subprocess.PIPE, start_new_session=True)
+    bufs = {"out": bytearray(), "err": bytearray()}
+    over = threading.Event()
+
+    def pump(f, key):
+        while True:
+            b = f.read(65536)
+            if not b:
+                break
+            if len(bufs[key]) < OUT_CAP:
+                bufs[key] += b
+            else:
+                over.set()
+    ts = [threading.Thread(target=pump, args=(p.stdout, "out")), threading.Thread(target=pump, args=(p.stderr, "err"))]
+    for t in ts:
+        t.daemon = True; t.start()
+    t0 = time.time(); timed_out = False
+    while p.poll() is None:
+        if time.time() - t0 > timeout or over.is_set():
+            timed_out = True
+            try:
+                os.killpg(p.pid, signal.SIGKILL)
+            except OSError:
+                pass
+            break
+        time.sleep(0.005)
+    p.wait()
+    for t in ts:
+        t.join(2)
+    rc = p.returncode
+    if timed_out:
+        return dict(rc=None, sig=None, out=bytes(bufs["out"]), err=bytes(bufs["err"]), timeout=True)
+    return dict(rc=rc if rc >= 0 else None, sig=-rc if rc < 0 else None, out=bytes(bufs["out"]), err=bytes(bufs["err"]), timeout=False)
 
 
 class Engines:
